@@ -122,6 +122,7 @@ EXTRA_PAIRS = [
     # --- round 13
     ("IX1", ["C06"]),    # a lookup that indexes the directory table with another table's index searches a different directory: names that exist are not found, duplicates get created
     ("FC2", ["C09", "C10"]),   # a chain released for anything but the looked-up entry of a delete / truncate takes clusters away from files that were flushed long ago
+    ("SD14", ["C13"]),   # a handshake command the card answers with an error fails the initialisation (Cmd58Error): otherwise a failed initialisation leaves the card marked initialised, with a guessed kind
     ("FL1", ["C11"]),    # a flush that panics for a dirty file of length 0 leaves a handle that can be neither flushed nor closed
 ]
 EXTRA = {}
